@@ -1345,6 +1345,8 @@ def c13_cases_avro():
         ("float_float64", F, B("float64"), "", False),
         ("nullsecond_ptr_int64", NS(L), P(B("int64")), "", False), ("nullsecond_ptr_string", NS(Sd("string")), P(B("string")), "", False),
         ("nullsecond_omit_int64", NS(L), B("int64"), 'json:"F,omitempty"', False), ("nullsecond_omit_string", NS(Sd("string")), B("string"), 'json:"F,omitempty"', False),
+        ("nullsecond_omit_ptr_int64", NS(L), P(B("int64")), 'json:"F,omitempty"', False), ("nullfirst_omit_ptr_int64", U(L), P(B("int64")), 'json:"F,omitempty"', False),
+        ("nullfirst_omit_ptr_string", U(Sd("string")), P(B("string")), 'json:"F,omitempty"', False), ("nullsecond_omit_ptr_bool", NS(Sd("boolean")), P(B("bool")), 'json:"F,omitempty"', False),
         ("nullsecond_plain_int64", NS(L), B("int64"), "", False), ("nullfirst_plain_string", U(Sd("string")), B("string"), "", False),
         ("nullfirst_ptr_int32_int", U(I), P(B("int32")), "", False), ("nullsecond_ptr_float32_float", NS(F), P(B("float32")), "", False),
         ("nullsecond_ptr_bool", NS(Sd("boolean")), P(B("bool")), "", False), ("nullsecond_ptr_bytes", NS(Sd("bytes")), P(B("bytes")), "", False),
